@@ -35,3 +35,14 @@ Fixpoint is_prefix {A} (eqb : A -> A -> bool) (p s : list A) : bool :=
 
 Definition fake_path {A} (eqb : A -> A -> bool) (real_root fake_root path : list A) : list A :=
   if is_prefix eqb real_root path then fake_root ++ skipn (length real_root) path else path.
+
+(* check_deb: where a package is unpacked and how the paths of its members are printed.
+   binary (.deb): dpkg-deb -x filename tmpdir            -> members at tmpdir/<member>,   real_root = os.path.join(tmpdir, '')
+   source (.dsc): dpkg-source -x filename tmpdir/s/      -> members at tmpdir/s/<member>, real_root = os.path.join(tmpdir, 's', '')
+   fake_root = (real_root, os.path.join(filename, ''));  tmpdir and filename do not end with "/" *)
+From Coq Require Import NArith.
+Definition real_root (binary : bool) (tmpdir : list N) : list N :=
+  if binary then tmpdir ++ [47%N] else tmpdir ++ [47%N; 115%N; 47%N].
+Definition unpacked_member (binary : bool) (tmpdir member : list N) : list N := real_root binary tmpdir ++ member.
+Definition printed_member (binary : bool) (tmpdir filename member : list N) : list N :=
+  fake_path N.eqb (real_root binary tmpdir) (filename ++ [47%N]) (unpacked_member binary tmpdir member).
